@@ -26,8 +26,47 @@ SCALES_QUICK = [0, 1, 9, 17, 18]
 SCALES_ALL = list(range(19))
 
 
-def dec_val(st, name, scale, lo=-M, hi=M, cong=None):
-    return Agg(DEC, 0, (st.sym(name, lo, hi, 'i128', cong), K(scale, 'u8')))
+_LAYOUT = {}
+
+
+def dec_layout(adt=DEC):
+    """(index of the i128 coefficient field, index of the u8 scale field) of Decimal / ArchivedDecimal - by type, not by position or name"""
+    if adt not in _LAYOUT:
+        db = None
+        for d in _DBS.values():
+            if adt in d.adts:
+                db = d
+        if db is None:
+            db = get_db()
+        a = db.adts.get(adt)
+        if a is None:
+            _LAYOUT[adt] = (0, 1)
+        else:
+            fs = a['variants'][0]['fields']
+            ci = [i for i, f in enumerate(fs) if f['ty'].endswith('i128') or 'i128 as' in f['ty']]
+            si = [i for i, f in enumerate(fs) if f['ty'].endswith('u8') or 'u8 as' in f['ty']]
+            if len(fs) != 2 or len(ci) != 1 or len(si) != 1:
+                raise SystemExit('fpsa: %s is no longer a pair of an i128 coefficient and a u8 scale: %s (fail closed)' % (adt, fs))
+            _LAYOUT[adt] = (ci[0], si[0])
+    return _LAYOUT[adt]
+
+
+class DecAgg(Agg):
+    """abstract Decimal whose .fields are always presented as (coefficient, scale) to the specifications"""
+    __slots__ = ()
+
+
+def dec_val(st, name, scale, lo=-M, hi=M, cong=None, adt=DEC):
+    ci, si = dec_layout(adt)
+    f = [None, None]
+    f[ci] = st.sym(name, lo, hi, 'i128', cong)
+    f[si] = K(scale, 'u8')
+    return Agg(adt, 0, f)
+
+
+def dec_coeff(v):
+    ci, si = dec_layout(v.kind)
+    return v.fields[ci]
 
 
 def int_val(st, name, ty, lo=None, hi=None):
@@ -41,7 +80,8 @@ def dec_parts(v):
     """(coeff Int, scale Int) of an abstract Decimal"""
     if not (isinstance(v, Agg) and v.kind == DEC and len(v.fields) == 2):
         return None
-    return v.fields[0], v.fields[1]
+    ci, si = dec_layout(DEC)
+    return v.fields[ci], v.fields[si]
 
 
 def opt_parts(v):
